@@ -20,7 +20,9 @@ _CALL_BUILTINS = {'list': 'list', 'dict': 'dict', 'set': 'set', 'str': 'str', 'i
                   'zip': 'iter', 'filter': 'iter', 'map': 'iter', 'frozenset': 'set', 'float': 'float', 'repr': 'str',
                   'hash': 'int', 'id': 'int', 'abs': 'int', 'type': 'ext', 'getattr': None, 'print': 'none', 'next': None,
                   'defaultdict': 'dict', 'deque': 'deque', 'Queue': 'queue', 'Path': 'path', 'format': 'str', 'chr': 'str',
-                  'ord': 'int', 'setattr': 'none', 'delattr': 'none', 'divmod': 'tuple', 'round': 'int', 'vars': 'dict', 'callable': 'bool', 'hasattr': 'bool'}
+                  'ord': 'int', 'setattr': 'none', 'delattr': 'none', 'divmod': 'tuple', 'round': 'int', 'vars': 'dict', 'callable': 'bool', 'hasattr': 'bool',
+                  'issubclass': 'bool', 'super': 'ext', 'object': 'ext', 'bytes': 'str', 'bin': 'str', 'oct': 'str', 'hex': 'str',
+                  'pow': 'int', 'slice': 'ext', 'staticmethod': 'callable', 'classmethod': 'callable', 'property': 'callable'}
 
 
 class Types:
